@@ -40,6 +40,7 @@ import (
 // Events of source k get offsets k*100000 + 10*(index within source + 1); SourceID = k+1.
 //
 // result: <trace tokens…> <idle|stuck>
+//   icm:off (input.Commit called)
 //   put:off:seq get:off:seq gtm:S (time-out event taken) scm:off:seq att:S lv:S det:S tmo:S chg:S pop:S   (S = src.stream)
 //   out:off:proc prop:off:proc fin:off:flags add:off:B seal:seq:B bcm:seq:B   (B = M | D)
 //   send:B:seq:ok|fail:id,id,…   giveup:B:seq:id,id,…   spk:c<parentoff>.<k>:proc   (id = off | c<parentoff>.<k>)
@@ -400,6 +401,8 @@ func execC01(t *hx.Toks) string {
 
 	inAny, _ := fake.Factory()
 	in := inAny.(*fake.Plugin)
+	// icm:off = the input plugin's Commit was called for the event (finalize must do this before it releases the stream)
+	in.SetCommitFn(func(e *pipeline.Event) { tr.add(fmt.Sprintf("icm:%d", e.Offset)) })
 	p.SetInput(&pipeline.InputPluginInfo{
 		PluginStaticInfo:  &pipeline.PluginStaticInfo{Type: "fake"},
 		PluginRuntimeInfo: &pipeline.PluginRuntimeInfo{Plugin: in},
